@@ -546,6 +546,24 @@ class HedSchema(HedSchemaBase):
 
         return found_entry, remainder, []
 
+    @staticmethod
+    def _index_as_written(tag, working_tag, prefix_tag_adj, index):
+        """ Position in the tag as written of a term boundary found in the case-folded text.
+
+            Case folding can change the length of the text (e.g. the sharp s), term boundaries are the same.
+        """
+        clean_tag = str(tag)[prefix_tag_adj:]
+        if len(clean_tag) == len(working_tag):
+            return index
+        if index >= len(working_tag):
+            return len(clean_tag)
+        position = -1
+        for _ in range(working_tag.count("/", 0, index)):
+            position = clean_tag.find("/", position + 1)
+        if working_tag[index] == "/":
+            return clean_tag.find("/", position + 1)
+        return position + 1
+
     def _find_tag_subfunction(self, tag, working_tag, prefix_tag_adj):
         """Finds the base tag and remainder from the left, raising exception on issues"""
         current_slash_index = -1
@@ -564,7 +582,8 @@ class HedSchema(HedSchemaBase):
                     error = ErrorHandler.format_error(ValidationErrors.NO_VALID_TAG_FOUND,
                                                       tag,
                                                       index_in_tag=prefix_tag_adj,
-                                                      index_in_tag_end=prefix_tag_adj + next_index)
+                                                      index_in_tag_end=prefix_tag_adj + self._index_as_written(
+                                                          tag, working_tag, prefix_tag_adj, next_index))
                     raise self._TagIdentifyError(error)
                 # If this is not a takes value node, validate each term in the remainder.
                 if not current_entry.takes_value_child_entry:
@@ -586,13 +605,15 @@ class HedSchema(HedSchemaBase):
             - One of the extension terms already exists as a schema term.
         """
         child_names = working_tag[current_slash_index + 1:].split("/")
-        word_start_index = current_slash_index + 1 + prefix_tag_adj
+        word_start_index = current_slash_index + 1
         for name in child_names:
             if self._get_tag_entry(name):
+                start = self._index_as_written(tag, working_tag, prefix_tag_adj, word_start_index)
+                end = self._index_as_written(tag, working_tag, prefix_tag_adj, word_start_index + len(name))
                 error = ErrorHandler.format_error(ValidationErrors.INVALID_PARENT_NODE,
                                                   tag,
-                                                  index_in_tag=word_start_index,
-                                                  index_in_tag_end=word_start_index + len(name),
+                                                  index_in_tag=start + prefix_tag_adj,
+                                                  index_in_tag_end=end + prefix_tag_adj,
                                                   expected_parent_tag=self.tags[name].name)
                 raise self._TagIdentifyError(error)
             word_start_index += len(name) + 1
